@@ -279,10 +279,6 @@ class WebSocket:
             protocol is required for `reason`.
         """
 
-        # NOTE(kgriffs): Do this first to be sure we clean things up
-        #   in the case that we are going to raise an error next.
-        await self._buffered_receiver.stop()
-
         if code is None:
             code = WSCloseCode.NORMAL
         elif not isinstance(code, int):
@@ -291,6 +287,11 @@ class WebSocket:
             raise ValueError('Invalid close code. The value must be >= 1000')
         elif 1015 <= code <= 1999 or 1004 <= code <= 1006:
             raise ValueError('Invalid close code. Only unreserved codes may be used.')
+
+        # NOTE: Stop the background receiver only once the arguments are known
+        #   to be valid, so that a rejected call leaves the connection fully
+        #   usable (the caller may catch the ValueError and carry on).
+        await self._buffered_receiver.stop()
 
         # NOTE(kgriffs): Only do this after we validate the code, to avoid
         #   masking errors.
@@ -748,7 +749,20 @@ class _BufferedReceiver:
         #   receive() may not be called again while another coroutine
         #   is already waiting for the next message.
         assert self._pop_message_waiter is None
-        assert self._pump_task is not None
+
+        if self._pump_task is None:
+            # NOTE: The receiver has been stopped by WebSocket.close(), but the
+            #   WebSocket was not marked as closed (close() found that the
+            #   client had already disconnected, or the server raised an
+            #   unexpected error while sending the close event). Deliver what
+            #   is still queued, in order, then report the disconnection.
+            if self._messages:
+                return self._messages.popleft()
+
+            event: Dict[str, Any] = {'type': EventType.WS_DISCONNECT}
+            if self.client_disconnected:
+                event['code'] = self.client_disconnected_code
+            return event
 
         # NOTE(kgriffs): Wait for a message if none are available. This pattern
         #   was borrowed from the websockets.protocol module.
